@@ -113,23 +113,60 @@ theorem single_fork_bystander (c : Cl) (S : List Ev) (l : List Ev) (nx : Nat)
     obtain ⟨r, hr', hbr⟩ := hrel.blk e (hl e he) (hblk (key e) (List.mem_map.mpr ⟨e, he, rfl⟩) hk)
     exact ⟨r, hr', hbr.1⟩
 
-/-- the group name after a commit with body `b` -/
-def nameAfter (b : Body) (old : Nat) : Nat :=
+/-- the group data (the whole extension as modelled: name, description, admins, relays, nostr group id)
+    after a commit with body `b`: a data commit carries the whole new extension, every other commit keeps it -/
+def dataAfter (b : Body) (old : GData) : GData :=
   match b with
-  | .setName t => t
+  | .setData d => d
   | _ => old
 
-/-- what "the group data is `w`'s" means: name per the commit body, admins kept, no pending commit or
-    proposals, and the stored record in step with it -/
+/-- the member set after a commit with body `b` that swept the queued leave proposals `sw` -/
+def membersAfter (b : Body) (sw : List Nat) (old : List Nat) : List Nat :=
+  match b with
+  | .removeLeavers who => (old.filter (fun m => !(who.contains m))).filter (fun m => !(sw.contains m))
+  | _ => old.filter (fun m => !(sw.contains m))
+
+/-- what "the group state is `w`'s" means: name, description, admins, relays and nostr group id per the commit
+    body, members per body and swept proposals, no pending commit or proposals, and the stored record
+    (epoch, name, description, admins, relays, nostr group id) in step with it -/
 theorem childG_data (c : Cl) (w : Ev) (b : Body) (sw : List Nat) (hk : w.kind = .commit b sw) :
-    (childG c w).name = nameAfter b c.g.name ∧
-    (childG c w).admins = c.g.admins ∧ (childG c w).pending = none ∧ (childG c w).props = [] ∧
-    (childG c w).recName = (childG c w).name ∧ (childG c w).recEpoch = epochOf (childG c w).path := by
+    dataOf (childG c w) = dataAfter b (dataOf c.g) ∧
+    (childG c w).members = membersAfter b sw c.g.members ∧
+    (childG c w).pending = none ∧ (childG c w).props = [] ∧ Synced (childG c w) := by
   have e1 : (gP c).name = c.g.name := ensureSecret_name _
   have e2 : (gP c).admins = c.g.admins := ensureSecret_admins _
+  have e3 : (gP c).desc = c.g.desc := ensureSecret_desc _
+  have e4 : (gP c).relays = c.g.relays := ensureSecret_relays _
+  have e5 : (gP c).nid = c.g.nid := ensureSecret_nid _
+  have e6 : (gP c).members = c.g.members := ensureSecret_members _
   have hf := ensureSecret_fields (mergeCommit c.maxPast (gP c) w)
-  simp only [childG, syncRec, hf]
-  cases b <;> simp [mergeCommit, hk, applyBody, e1, e2, nameAfter]
+  have hd := ensureSecret_data (mergeCommit c.maxPast (gP c) w)
+  refine ⟨?_, ?_, ?_, ?_, synced_syncRec _⟩
+  all_goals simp only [childG, syncRec, dataOf, hf, hd]
+  all_goals cases b <;> simp [mergeCommit, hk, applyBody, e1, e2, e3, e4, e5, e6, dataAfter, membersAfter, dataOf]
+
+/-- `childG_data` field by field, for a data commit: every field of the group data is the commit's -/
+theorem childG_setData (c : Cl) (w : Ev) (d : GData) (sw : List Nat) (hk : w.kind = .commit (.setData d) sw) :
+    (childG c w).name = d.name ∧ (childG c w).desc = d.desc ∧ (childG c w).admins = d.admins ∧
+    (childG c w).relays = d.relays ∧ (childG c w).nid = d.nid ∧
+    (childG c w).recName = d.name ∧ (childG c w).recDesc = d.desc ∧ (childG c w).recAdmins = d.admins ∧
+    (childG c w).recRelays = d.relays ∧ (childG c w).recNid = d.nid := by
+  obtain ⟨h1, _, _, _, hs⟩ := childG_data c w _ sw hk
+  obtain ⟨_, s2, s3, s4, s5, s6⟩ := hs
+  simp only [dataOf, dataAfter] at h1
+  have a1 := congrArg GData.name h1
+  have a2 := congrArg GData.desc h1
+  have a3 := congrArg GData.admins h1
+  have a4 := congrArg GData.relays h1
+  have a5 := congrArg GData.nid h1
+  simp only at a1 a2 a3 a4 a5
+  exact ⟨a1, a2, a3, a4, a5, s2.trans a1, s4.trans a2, s3.trans a3, s5.trans a4, s6.trans a5⟩
+
+/-- … and for every other commit (self-update, removal of leavers) the group data is the parent's -/
+theorem childG_keeps_data (c : Cl) (w : Ev) (b : Body) (sw : List Nat) (hk : w.kind = .commit b sw)
+    (hb : ∀ d, b ≠ .setData d) : dataOf (childG c w) = dataOf c.g := by
+  rw [(childG_data c w b sw hk).1]
+  cases b <;> simp_all [dataAfter]
 
 /-! ### the excluded case: retention 0
 
@@ -146,8 +183,8 @@ def single_fork_bystander_full : Prop :=
       (l.foldl (fun c e => (deliver c e nx).1) c).g.path = c.g.path ++ [w.cipher]
 
 def cA : Ev := { n := 1, ts := 20, idnum := 7, cipher := 1, sender := 1, path := [], kind := .commit .selfUpdate [] }
-def cB : Ev := { n := 2, ts := 19, idnum := 9, cipher := 2, sender := 0, path := [], kind := .commit (.setName 4) [] }
-def cC : Ev := { n := 3, ts := 19, idnum := 11, cipher := 3, sender := 0, path := [], kind := .commit (.setName 5) [] }
+def cB : Ev := { n := 2, ts := 19, idnum := 9, cipher := 2, sender := 0, path := [], kind := .commit (.setData { initData [0, 1] 1 with name := 4 }) [] }
+def cC : Ev := { n := 3, ts := 19, idnum := 11, cipher := 3, sender := 0, path := [], kind := .commit (.setData { initData [0, 1] 1 with name := 5 }) [] }
 def by0 (retention : Nat) : Cl := initCl 2 false retention [0, 1, 2] [0, 1] 1
 
 theorem by0_secrets (r : Nat) : SecretsOK (by0 r).g := by intro ep q h; simp [by0, initCl, initG, alookup] at h
@@ -160,8 +197,8 @@ theorem by0_siblings0 : Siblings (by0 0) [cA, cB, cC] where
     simp only [List.mem_cons, List.not_mem_nil, or_false] at he
     rcases he with rfl | rfl | rfl
     · exact ⟨.selfUpdate, [], rfl, by decide⟩
-    · exact ⟨.setName 4, [], rfl, by decide⟩
-    · exact ⟨.setName 5, [], rfl, by decide⟩
+    · exact ⟨_, [], rfl, by decide⟩
+    · exact ⟨_, [], rfl, by decide⟩
   foreign := by decide
   ts := by decide
   distinct := by decide
@@ -175,8 +212,8 @@ theorem by0_siblings5 : Siblings (by0 5) [cA, cB, cC] where
     simp only [List.mem_cons, List.not_mem_nil, or_false] at he
     rcases he with rfl | rfl | rfl
     · exact ⟨.selfUpdate, [], rfl, by decide⟩
-    · exact ⟨.setName 4, [], rfl, by decide⟩
-    · exact ⟨.setName 5, [], rfl, by decide⟩
+    · exact ⟨_, [], rfl, by decide⟩
+    · exact ⟨_, [], rfl, by decide⟩
   foreign := by decide
   ts := by decide
   distinct := by decide
@@ -386,6 +423,7 @@ theorem reachable_hinv (id : Nat) (p : Bool) (r : Nat) (ms as : List Nat) (name 
       | deliver e nx => exact hinv_deliverN 3 nx c e h
       | send n ts idn mid mts tok => exact hinv_send c n ts idn mid mts tok h
       | stage n ts idn b na => exact hinv_stageCommit c n ts idn b na h
+      | data n ts idn u => exact hinv_updateData c n ts idn u h
       | leave n ts idn => exact hinv_leave c n ts idn h
       | merge => exact hinv_merge c h
       | clear => exact hinv_clear c h
